@@ -447,6 +447,8 @@ def o_history(case, T):
     for op in case["ops"]:
         if op[0] == "new":
             _reference(op[1], op[2])
+            for lab, sp in _family(op[1]):  # sibling references are needed by the D4 signature; never compute them
+                _reference(lab, sp)  # in the middle of a history (computing one clears the caches)
     _clear_caches()
     objs = []  # (label, spell, obj | None)
     first = {}
@@ -580,10 +582,20 @@ def _is_d4(label, spell, got):
     another CRS, a form no spelling of this CRS produces) is not this finding."""
     if spell not in D4_SPELLS:
         return False
-    sib = ["int", "pyproj", "wkt2", "projjson"] if label != "sinu" else ["proj", "pyproj", "wkt2", "projjson"]
-    if label.startswith("utm:"):
-        sib = ["int", "pyproj", "wkt2"]
-    return any(got == _reference(label, s) for s in sib if s != spell)
+    # the same CRS can be reached under two generator labels (pool label "32755" and UTM-pool label "utm:32755")
+    return any(got == _reference(lab, s) for lab, s in _family(label) if (lab, s) != (label, spell))
+
+
+def _family(label):
+    """All (label, spelling) specifications of the generator that denote the same CRS as ``label`` and take part in
+    the D4 key collision."""
+    code = label.split(":")[1] if label.startswith("utm:") else label
+    fam = []
+    if code in CRS_POOL:
+        fam += [(code, s) for s in (["proj", "pyproj", "wkt2", "projjson"] if code == "sinu" else ["int", "pyproj", "wkt2", "projjson"])]
+    if code.isdigit() and int(code) in UTM_POOL:
+        fam += [("utm:" + code, s) for s in ("int", "pyproj", "wkt2")]
+    return fam
 
 
 def _trim(t):
